@@ -161,7 +161,7 @@ func (r *runner) Op(t []string) string {
 			return "ok"
 		}
 		switch t[0] {
-		case "open", "app", "cur", "adv", "scan", "reopen", "capp", "cadv", "stat":
+		case "open", "app", "cur", "adv", "scan", "reopen", "capp", "cadv", "cseg", "stat":
 			return "notopen"
 		}
 		return "bad-op"
@@ -257,6 +257,54 @@ func (r *runner) Op(t []string) string {
 			panic(err)
 		}
 		return r.reopenAns(tornObs(pre, after[name], torn))
+	case t[0] == "cseg" && len(t) == 3:
+		// crash inside addSegment: the new segment file exists with k bytes of its
+		// zero footer; the entry itself has not been written
+		b, herr := h.UnHex(t[1])
+		if herr != nil {
+			return "bad-op"
+		}
+		k := int(h.Atoi(t[2]))
+		before := r.snapshot()
+		err := q.Append(b)
+		after := r.snapshot()
+		q.Close()
+		r.q = nil
+		var fresh string
+		for n := range after {
+			if _, ok := before[n]; !ok {
+				if fresh != "" {
+					panic("append created two files")
+				}
+				fresh = n
+			}
+		}
+		// back to the state before the append …
+		for n := range after {
+			os.Remove(filepath.Join(r.dir, n))
+		}
+		for n, bs := range before {
+			if err := os.WriteFile(filepath.Join(r.dir, n), bs, 0600); err != nil {
+				panic(err)
+			}
+		}
+		if err != nil || fresh == "" {
+			return r.reopenAns("0 0 3")
+		}
+		// … plus the new file, k bytes into its footer
+		if k > 8 {
+			k = 8
+		}
+		if err := os.WriteFile(filepath.Join(r.dir, fresh), make([]byte, k), 0600); err != nil {
+			panic(err)
+		}
+		same := 0
+		if k == 0 {
+			same = 1
+		} else if k >= 8 {
+			same = 2
+		}
+		return r.reopenAns(fmt.Sprintf("%d 0 %d", k, same))
 	case t[0] == "cadv" && len(t) == 2:
 		k := int(h.Atoi(t[1]))
 		pos, _ := q.Position()
@@ -413,6 +461,11 @@ func gen(r *h.Rand, tier string, emit func([]string)) {
 				"cur", "adv", fmt.Sprintf("cadv %d", k)}, drain(4)...))
 		}
 	}
+	// 1c. a crash while the new segment file of a rollover is created
+	for k := 0; k <= 8; k++ {
+		emit(append([]string{"open 1000 24", "app a101aaaaaaaaaaaaaaaa", "app a202bbbbbbbbbbbbbbbb", "stat",
+			fmt.Sprintf("cseg a303 %d", k)}, drain(3)...))
+	}
 	nRandom := 300
 	if tier == "thorough" {
 		nRandom = 4000
@@ -461,8 +514,25 @@ func gen(r *h.Rand, tier string, emit func([]string)) {
 		for n := 2 + r.Intn(14); n > 0; n-- {
 			randomOp()
 		}
-		// the crash: every cut of one append or one advance
-		if r.Chance(0.55) {
+		// the crash: every cut of one append, of one new-segment footer, or of one advance
+		if maxSeg <= 128 && r.Chance(0.2) {
+			b := g.pickBody()
+			tailLen := 2 + r.Intn(6)
+			var tail []string
+			for n := tailLen; n > 0; n-- {
+				save := ops
+				ops = nil
+				randomOp()
+				tail = append(tail, ops...)
+				ops = save
+			}
+			for k := 0; k <= 8; k++ {
+				cs := append(append([]string{}, ops...), fmt.Sprintf("cseg %s %d", h.Hex(b), k))
+				cs = append(cs, tail...)
+				cs = append(cs, drain(appended+tailLen+1)...)
+				emit(cs)
+			}
+		} else if r.Chance(0.55) {
 			b := g.pickBody()
 			appended++
 			kmax := 16 + len(b)
